@@ -280,7 +280,7 @@ func (b *TB) build(v ssa.Value) *Term {
 		}
 		return &Term{Op: "freevar", Name: v.Name()}
 	case *ssa.Global:
-		return &Term{Op: "global", Name: v.Pkg.Pkg.Name() + "." + v.Name()}
+		return &Term{Op: "global", Name: v.Pkg.Pkg.Name() + "." + globalName(v)}
 	case *ssa.Function:
 		return &Term{Op: "fn", Name: funcName(v)}
 	case *ssa.Builtin:
@@ -667,7 +667,7 @@ func fieldName(t types.Type, idx int) string {
 		t = p.Elem()
 	}
 	if st, ok := t.Underlying().(*types.Struct); ok && idx < st.NumFields() {
-		return st.Field(idx).Name()
+		return fieldVarName(st.Field(idx))
 	}
 	return fmt.Sprintf("#%d", idx)
 }
@@ -837,4 +837,21 @@ func cellStableForClosures(a *ssa.Alloc) bool {
 		}
 	}
 	return true
+}
+
+// fieldVarName: the name of a struct field as the rules know it (the pinned tree's name for a field that the analysed
+// tree renamed; resolveRenames).
+func fieldVarName(v *types.Var) string {
+	if a, ok := fieldAlias[v]; ok {
+		return a
+	}
+	return v.Name()
+}
+
+// globalName: the name of a package-level variable as the rules know it (resolveRenames).
+func globalName(g *ssa.Global) string {
+	if a, ok := globalAlias[g]; ok {
+		return a
+	}
+	return g.Name()
 }
